@@ -19,6 +19,8 @@ import (
 
 // stats collected while executing, written into the evidence by the orchestrator
 type stats struct {
+	TitleChecked  int            `json:"title_idempotent_strings_checked"`
+	TitleCounter  []string       `json:"title_not_idempotent_examples,omitempty"`
 	Ops          map[string]int `json:"ops"`
 	Branches     map[string]int `json:"branches"`
 	BandSkipped  int            `json:"band_skipped"`
@@ -1183,4 +1185,33 @@ func keptOracle(input, kept []string, size int, allcap bool) string {
 		return " ALLCAP-FAIL"
 	}
 	return ""
+}
+
+// checkTitleIdempotent validates, on the real strings.Title, the one hypothesis the word-list
+// theorems (C08, C10) make about it: title (title w) = title w. Checked on every single code
+// point, on every code point after a letter and after a non-letter, and on every word the
+// operations mention. A counterexample is reported in the evidence (it would be a fact about
+// the Go standard library, not about the repository).
+func checkTitleIdempotent(extra []string) {
+	test := func(w string) {
+		st.TitleChecked++
+		t := strings.Title(w)
+		if strings.Title(t) != t && len(st.TitleCounter) < 5 {
+			st.TitleCounter = append(st.TitleCounter, encCps(w))
+		}
+	}
+	for c := rune(0); c <= 0x10FFFF; c++ {
+		if c >= 0xD800 && c <= 0xDFFF {
+			continue
+		}
+		s := string(c)
+		test(s)
+		if c < 0x30000 {
+			test("a" + s)
+			test("-" + s)
+		}
+	}
+	for _, w := range extra {
+		test(w)
+	}
 }
